@@ -36,11 +36,14 @@ Ins(t)  == CASE t = "P1" -> {<<"F1", 0>>}
 Outs(t) == CASE t = "P1" -> << [addr |-> "A", zero |-> FALSE], [addr |-> "B", zero |-> FALSE] >>
              [] t = "P2" -> << [addr |-> "A", zero |-> FALSE], [addr |-> "A", zero |-> TRUE] >>
              [] t = "P3" -> << [addr |-> "B", zero |-> FALSE] >>
+             [] t \in {"W3", "W4"} -> << [addr |-> "B", zero |-> FALSE], [addr |-> "A", zero |-> FALSE] >>
              [] OTHER    -> << [addr |-> "A", zero |-> FALSE] >>
 \* side-chain withdrawal hashes recorded (Tx3 index)
 Tx3Of(t) == CASE t = "W0" -> {"h1", "h2"}     \* payload v0: hashes in the payload
               [] t = "W1" -> {"h3"}           \* payload v1: hash in the output payload
               [] t = "W2" -> {"h4"}           \* payload v2 (Schnorr)
+              [] t = "W3" -> {"h5"}           \* v1, a plain (change) output before the withdraw output
+              [] t = "W4" -> {"h6"}           \* v2, a plain (change) output before the withdraw output
               [] OTHER -> {}
 RetDepOf(t) == IF t = "R1" THEN {"d1"} ELSE {}
 DraftOf(t) == CASE t = "CP"  -> {"g1"}
